@@ -11,9 +11,11 @@
  * EXPECT-FAIL: MRG1 merge_patch
  * EXPECT-FAIL: MRG2 merge_patch
  * EXPECT-FAIL: MRG3 merge_patch
+ * EXPECT-FAIL: GEN1 create_patches
  */
 #include "cJSON.h"
 #include <string.h>
+#include <limits.h>
 #include <stdio.h>
 #include <ctype.h>
 
@@ -297,3 +299,39 @@ static cJSON *merge_patch(cJSON *target, const cJSON * const patch)
 }
 CJSON_PUBLIC(cJSON *) cJSONUtils_MergePatch(cJSON *target, const cJSON * const patch);
 CJSON_PUBLIC(cJSON *) cJSONUtils_MergePatch(cJSON *target, const cJSON * const patch) { return merge_patch(target, patch); }
+
+/* GEN1: a depth budget silently drops differences */
+static void emit_op(cJSON *patches, const char *op, const unsigned char *path, const cJSON *value) { cJSON *p = cJSON_CreateObject(); (void)op; (void)path; (void)value; cJSON_AddItemToArray(patches, p); }
+static void create_patches(cJSON * const patches, const unsigned char * const path, cJSON * const from, cJSON * const to, const size_t depth)
+{
+    if ((from == NULL) || (to == NULL)) { return; }
+    if (depth >= 1000) { return; }
+    if ((from->type & 0xFF) != (to->type & 0xFF)) { emit_op(patches, "replace", path, to); return; }
+    if ((from->type & 0xFF) == cJSON_Array)
+    {
+        cJSON *a = from->child;
+        cJSON *b = to->child;
+        size_t index = 0;
+        for (; (a != NULL) && (b != NULL); (void)(a = a->next), (void)(b = b->next), index++)
+        {
+            if (index > ULONG_MAX) { return; }
+            create_patches(patches, path, a, b, depth + 1);
+        }
+        return;
+    }
+    if (from->valueint != to->valueint) { emit_op(patches, "replace", path, to); }
+}
+CJSON_PUBLIC(cJSON *) cJSONUtils_GeneratePatches(cJSON * const from, cJSON * const to);
+CJSON_PUBLIC(cJSON *) cJSONUtils_GeneratePatches(cJSON * const from, cJSON * const to)
+{
+    cJSON *patches = NULL;
+    if ((from == NULL) || (to == NULL)) { return NULL; }
+    patches = cJSON_CreateArray();
+    create_patches(patches, (const unsigned char*)"", from, to, 0);
+    return patches;
+}
+
+/* DIG1 */
+size_t bad_DIG1_count(size_t index) { size_t length = 1; while (index > 10) { index /= 10; length++; } return length; }
+size_t good_count(size_t index) { size_t length = 1; while (index >= 10) { index /= 10; length++; } return length; }
+size_t good_count_nonzero(size_t index) { size_t length = 0; for (; index != 0; index /= 10) { length++; } return length; }
